@@ -281,11 +281,17 @@ func startStateThread(idx int, state string, stepIdx int, probes func() []kjob.P
 		switch state {
 		case "spin":
 			for atomic.LoadInt32(&releaseFlag) == 0 {
+				for k := 0; k < 20000; k++ {
+					if atomic.LoadInt32(&releaseFlag) != 0 {
+						break
+					}
+				}
+				runtime.Gosched()
 			}
 		case "nanosleep":
 			for atomic.LoadInt32(&releaseFlag) == 0 {
 				ts := syscall.Timespec{Nsec: 300000}
-				syscall.RawSyscall(syscall.SYS_NANOSLEEP, uintptr(unsafe.Pointer(&ts)), 0, 0)
+				syscall.Nanosleep(&ts, nil)
 			}
 		case "read":
 			var buf [1]byte
@@ -372,7 +378,15 @@ func run(job *kjob.Job) {
 		case "spinners":
 			for k := 0; k < st.N; k++ {
 				go func() {
+					// always runnable, so every P stays busy, but cooperative: the
+					// coordinator is not starved when GOMAXPROCS is small
 					for atomic.LoadInt32(&stopSpinners) == 0 {
+						for k := 0; k < 2000; k++ {
+							if atomic.LoadInt32(&stopSpinners) != 0 {
+								break
+							}
+						}
+						runtime.Gosched()
 					}
 				}()
 			}
